@@ -11,7 +11,9 @@ CHECKS = {
              text='Every observed symbol (class-stratified contents x versions x levels x options, incl. every single byte, kanji boundary '
                   'pairs, all ECI encodings, multi-part lists, hanzi) is decoded by the ISO reference decoder written in TLA+ and the '
                   'payload / ECI clauses are evaluated by TLC on the observed state; the design run model-checks spec-encoder -> '
-                  'spec-decoder round trips on a small scope. Exhaustive only where the evidence says so.', ref='6 C01'),
+                  'spec-decoder round trips on a small scope, and the pipeline machines Segno.tla / SegnoMP.tla (multi-part, requested modes incl. '
+                  'hanzi, ECI) predict the implementation bit for bit: every exported vector is executed and the matrix must equal a behaviour of the '
+                  'machine (exact-matrix conformance). Exhaustive only where the evidence says so.', ref='6 C01'),
  'C02': dict(tech='TLA+ geometry/format model (spec/ISOTables.tla, SymCheck!C02Fails) judging recorded symbols with TLC',
              text='All 168 (version, level) pairs (thorough: all 1312 (version, level, mask) triples): every function-pattern module, both '
                   'format copies (BCH word recomputed by polynomial division), both version copies (Golay) and the reported metadata are '
@@ -41,7 +43,7 @@ CHECKS = {
              text='All one-byte inputs, all lead bytes x boundary trail bytes (thorough: all 65 536 two-byte inputs), every requested mode x '
                   'representable or not x version: TLC classifies the bytes, runs the model and compares refusal, the mode indicator read '
                   'from the matrix and the reported mode.', ref='6 C07'),
- 'C08': dict(tech='TLA+ reference decoder applied to every symbol of recorded make_sequence results; sequence clauses (Trace_Seq) evaluated by TLC',
+ 'C08': dict(tech='TLA+ Structured Append machine (spec/SegnoSA.tla) model-checked with TLC and bound by exact conformance of every symbol matrix (Trace_SegnoSA); TLA+ reference decoder applied to every symbol of recorded make_sequence results (Trace_Seq)',
              text='Sequences for version-given (lengths around k x capacity, every length on versions 1-2) and symbol_count-given calls over '
                   '7 content kinds: TLC decodes each symbol and checks count, version, QR-only, validity, fit, header position/total, '
                   'parity = XOR of the message bytes, reassembly. The open finding (over-full symbols with a requested version) is accepted '
@@ -62,7 +64,9 @@ CHECKS = {
              text='TLC enumerates kinds x 10 routes x option sets with the reference call each route must agree with; route and reference are '
                   'executed (files, streams, data URIs, svg_inline, svgz, in-process and subprocess CLI) and TLC checks that the reference is '
                   'the one the model prescribes and that the normalised documents are identical; sequence file names / contents, unknown '
-                  'extensions and the CLI terminal output are further observation families.', ref='6 C12'),
+                  'extensions and the CLI terminal output (also under different COLUMNS settings) are further observation families; spec/Cli.tla models '
+                  'the tool as a front end of the factories (Parse / MakeCode / Emit): for every flag vector the files written must equal those of '
+                  'the API call the machine arrives at.', ref='6 C12'),
  'C16': dict(tech='TLA+ payload grammars (spec/Helpers.tla: MeCard/WIFI scanner state machine, vCard content lines, URI grammar, EPC layout); scanner round trip model-checked; recorded payloads validated by TLC',
              text='TLC proves Scan(Build(fields)) = fields and that no value changes the number of fields for all field lists over the '
                   'delimiter / escape alphabet (640 800 lists); the same strings and adversarial ones go through the real make_*_data '
@@ -74,12 +78,14 @@ CHECKS = {
                   '(ok / ValueError / LookupError, nothing else), equality of accepted alternative spellings with the canonical spelling, the '
                   'accepted symbols against the C01-C03 clauses, serialiser refusals per kind, and the exit status / stderr contract of the '
                   'command line tool (in-process and as subprocess).', ref='6 C14'),
- 'C15': dict(tech='TLA+ purity / ownership model (spec/Purity.tla) model-checked over all interleavings; TLC-generated schedules replayed with real threads (deterministic baton scheduler); execution logs validated by TLC (Trace_Purity)',
+ 'C15': dict(tech='TLA+ purity / ownership model (spec/Purity.tla) model-checked over all interleavings with TLC and as an inductive invariant with Apalache; TLC-generated schedules replayed with real threads (deterministic baton scheduler); execution logs validated by TLC (Trace_Purity)',
              text='The model (threads x pipeline stages x object ownership) is checked exhaustively for 2 threads / 3 calls (tables constant, '
                   'returned symbols immutable, own writes only, deterministic); the deviation of a shared scratch object is found by TLC '
                   '(negative control). Every call of a 60-call alphabet gets a reference in a fresh interpreter; ordered pairs and longer '
                   'histories, TLC schedules with <= 2 context switches and seeded line-level pre-emptions are executed and every logged step '
-                  'is validated by TLC against the model state.', ref='6 C15'),
+                  'is validated by TLC against the model state; soak histories, drop histories and calls after every thread schedule extend the '
+                  'histories. The ownership discipline is additionally an inductive invariant checked with Apalache (spec/apalache/PurityInd.tla): '
+                  'unbounded in calls and context switches.', ref='6 C15'),
 }
 
 NOT_YET = {}
